@@ -599,7 +599,7 @@ func genOp(r *Rng, mem []AW, everCreated []string) Op {
 			n = rec[r.Intn(len(rec))]
 		}
 		o := Op{Kind: "Recover", Name: n, Seed: r.Intn(len(seeds)), Pw: r.Intn(len(pws)), Dfail: dfail}
-		if w := find(n); w != nil && r.Chance(75) {
+		if w := find(n); w != nil && r.Chance(75) && w.Seed >= 0 && w.Seed < len(seeds) {
 			o.Seed = w.Seed
 		}
 		return o
@@ -724,8 +724,11 @@ func run(args []string) error {
 			var done Op
 			var opErr error
 			panicked := Guard(func() { done, opErr = apply(s, dir, op, ab, &genN) })
-			if panicked {
-				return fmt.Errorf("service panicked on %s", op.Text())
+			if panicked { // a panic of the service is an observable (never predicted by the model)
+				done, opErr = op, errors.New("PANIC")
+				if done.Name == "" {
+					done.Name = "generated-panic.wlt"
+				}
 			}
 			if op.Kind == "Create" && op.Name == "" {
 				genNames = append(genNames, done.Name)
